@@ -4,7 +4,7 @@ Import ListNotations.
 Open Scope string_scope.
 
 Definition nentry_eqb (a b : nentry) : bool :=
-  bytes_eqb (n_cmd a) (n_cmd b) && bytes_eqb (n_desc a) (n_desc b) && list_eqb bytes_eqb (n_keys a) (n_keys b) &&
+  bytes_eqb (n_cmd a) (n_cmd b) && bytes_eqb (n_desc a) (n_desc b) && list_eqb bytes_eqb (n_keys a) (n_keys b) && list_eqb bytes_eqb (n_tags a) (n_tags b) &&
   bytes_eqb (n_niche a) (n_niche b) && list_eqb bytes_eqb (n_platforms a) (n_platforms b) && Bool.eqb (n_pipeline a) (n_pipeline b).
 
 Record step08 := {
